@@ -196,6 +196,57 @@ func c01Units(tier string, seed int64) []Unit {
 			}
 		}
 	}
+	// E1 -> R1: explorer-found failing streams of the rejection-based consumers as the first test case
+	for pi := range rejectionProgs() {
+		for _, nff := range []bool{true, false} {
+			pi, nff := pi, nff
+			units = append(units, Unit{Name: fmt.Sprintf("C01/e1-first-case/rejection-prog=%d/nofailfile=%v", pi, nff), Run: func(c *Ctx) {
+				prog := rejectionProgs()[pi]
+				max := 60
+				if !quick {
+					max = 1500
+				}
+				streams := failingStreams(c, prog, 18, 3, max)
+				c.Count("explorer_found_failing_first_cases", int64(len(streams)))
+				for si, words := range streams {
+					if c.Expired() {
+						c.Cap("time budget")
+						return
+					}
+					cfg := Config{Checks: 3, Seed: uint64(seed)*131 + 977, ShrinkMS: -1, NoFailFile: nff, Name: "TestC01"}
+					CleanFailFiles()
+					env := NewEnv(nil, prog.Base)
+					log := RunCheckWithFirstCase(prog, env, cfg, words)
+					c.R.Evals++
+					c.R.Transitions += int64(len(env.Invs))
+					v := log.Verdict()
+					c.Outcome(fmt.Sprintf("stream#%d %s invs=%d", si, v.Class, len(env.Invs)), true)
+					if len(env.Invs) == 0 || !env.Invs[0].Falsified() {
+						c.Violate(Violation{Sig: "C01 e1r1-first-case-not-installed prog=" + prog.Name, Detail: fmt.Sprintf("the explorer's failing stream %s did not become the first test case (first invocation: %s)", fmtWords(words), SummarizeInvs(env.Invs, 2)),
+							Replay: map[string]any{"program": prog.Name, "words": words}})
+						continue
+					}
+					c01Oracle(c, prog, log, nil, 0, fmt.Sprintf("explorer-found first case %s, uncut", fmtWords(words)))
+					blamed := env.Blamed()
+					if blamed == nil {
+						continue
+					}
+					shrinkInvs := len(env.Invs) - (blamed.Idx + 2)
+					for _, j := range cutPoints(shrinkInvs, quick) {
+						cfgj := cfg
+						cfgj.ShrinkMS = j
+						CleanFailFiles()
+						envj := NewEnv(nil, prog.Base)
+						logj := RunCheckWithFirstCase(prog, envj, cfgj, words)
+						c.R.Evals++
+						c.R.Transitions += int64(len(envj.Invs))
+						c.Count("cut_runs", 1)
+						c01Oracle(c, prog, logj, nil, 0, fmt.Sprintf("explorer-found first case %s, minimization cut after %d invocations", fmtWords(words), j))
+					}
+				}
+			}})
+		}
+	}
 	return units
 }
 
@@ -204,7 +255,7 @@ func init() {
 		ID:    "C01",
 		Level: "model_checking",
 		Rule: "E2 lazyprop over 11 base programs (threshold, two sites + panic, non-fatal only, Repeat machine, Custom with cleanup, unique inputs, 5 rejection-based generator consumers) x deviations of 13 behaviours on the first P inputs " +
-			"x checks {1,5} x nofailfile {0,1} x base seeds; every failing run is repeated with minimization cut after j shrink-phase invocations (virtual clock: 1 ms per invocation, -rapid.shrinktime=j ms). " +
+			"x checks {1,5} x nofailfile {0,1} x base seeds; plus, for the 5 rejection-based consumers, every failing answer sequence E1 finds (depth 18, <=3 deviations, three base streams; capped at 60 quick / 1500 thorough per program) installed as the first test case of a real Check through the PRNG word seam (r1); every failing run is repeated with minimization cut after j shrink-phase invocations (virtual clock: 1 ms per invocation, -rapid.shrinktime=j ms). " +
 			"Oracle: the last invocation (final replay) signals the failure the message names, logged draws = received draws, fail file words replay (buffer stream and MakeFuzz) to the same case; never flaky; no failure without a falsified case. " +
 			"distinct = distinct (class, #invocations, site); non-trivial = a failure was reported.",
 		Assumptions: []string{"cut points are enumerated at the granularity of property invocations: clock readings between two invocations see the same shrinker state"},
